@@ -159,6 +159,29 @@ def run_prop(prop, tier, seed):
                     rep.violation("accumulates:%s:%s" % (key, f0["out"] if f0["state"] == "ok" else f0["state"]),
                                   "%d consecutive identical calls: %s before call 2 is %r, before call %d it is %r" % (N, key, a[key], N, z[key]), dict(file=f0, calls=N))
         rep.cov["repeat_runs"] = [len(runs), N]
+        # the same runs with a data-source-heavy format (procfs readers, NSS lookups, resolver) in two process states: ordinary, and with a
+        # /proc/<pid>/cgroup larger than the 10 KB the cgroup reader accepts (nested private cgroup v1 hierarchies, harness/bigcgroup.sh)
+        fheavy = dict(next(f for f in files if f["state"] == "ok" and f["out"] == "file" and f["chain"] in ("none", "pass")), fmt="heavy")
+        for sname, wrap in (("ordinary", None), ("cgroup-file-over-10KB", cf.bigcgroup_wrap)):
+            label = "s-" + sname
+            ob = cf.run_hist(b, [(label, [(fheavy, call, "ENOENT")] * N)], b["root"] + "/state-" + sname, workers=1, wrap=wrap)
+            if 96 in ob.get("_rcs", []):
+                rep.assumptions.append("process state %s cannot be arranged here (no cgroup v1 mounts): not exercised" % sname)
+                continue
+            st = ob.get(label, {}).get("steps", {})
+            if len(st) < N or "pre" not in st.get(1, {}) or "pre" not in st.get(N - 1, {}):
+                sig = ob.get(label, {}).get("child", {}).get("signal")
+                if sig:
+                    rep.violation("repeat-crash:" + sname, "%d consecutive calls with the heavy format, process state %s: the process died with signal %s" % (N, sname, sig), dict(state=sname))
+                else:
+                    rep.assumptions.append("process-state run %s incomplete" % sname)
+                continue
+            a, z = st[1]["pre"][0]["snap"], st[N - 1]["pre"][0]["snap"]
+            for key in ("fds", "heap"):
+                if a[key] != z[key]:
+                    rep.violation("accumulates:%s:%s" % (key, sname), "%d consecutive identical calls (heavy format, process state %s): %s before call 2 is %r, before call %d it is %r" % (
+                        N, sname, key, a[key], N, z[key]), dict(state=sname, calls=N, format=cf.FMT["heavy"].decode()))
+        rep.cov["process_state_runs"] = 2
     rep.cov["traces_validated_against_impl"] = len(items)
     rep.cov["evaluations"] = len(items)
     rep.cov["distinct_nontrivial"] = len(nontriv)
